@@ -1025,6 +1025,10 @@ def gen_lvalue(node, code, codegen):
             codegen.gen_code_for_node(const, code)
             return
         if node.type == expr.Type.STRING:
+            # (a CONST used inside another CONST's value reaches us as
+            # a name; its text has to be in the literal table like any
+            # other string that is pushed)
+            code.add_string_literal(value)
             code.add(('push$', f'"{value}"'))
         else:
             code.add((f'push{node.type.type_char}', value))
